@@ -834,6 +834,13 @@ fn check_vec(ctx: &mut Ctx, c: &VecCase) -> Outcome {
             args.extend(std::iter::repeat("(".to_string()).take(n));
             args.push("-true".into());
             args.extend(std::iter::repeat(")".to_string()).take(n));
+        } else if let Some(n) = t.strip_prefix("@ORPARENS:").and_then(|r| r.strip_suffix('@')).and_then(|n| n.parse::<usize>().ok()) {
+            // n levels that do nest in the expression tree: -false -o ( -false -o ( ... -true ) )
+            for _ in 0..n {
+                args.extend(["-false".to_string(), "-o".to_string(), "(".to_string()]);
+            }
+            args.push("-true".into());
+            args.extend(std::iter::repeat(")".to_string()).take(n));
         } else {
             args.push(t.clone());
         }
@@ -977,6 +984,8 @@ fn probes() -> Vec<VecCase> {
         VecCase { flags: vec![], roots: vec![s("c/r")], tokens: vec![s("@PARENS:2000@")], binary: true, raw_bytes_at: None, sinks: 0 },
         VecCase { flags: vec![], roots: vec![s("c/r")], tokens: vec![s("@PARENS:20000@")], binary: true, raw_bytes_at: None, sinks: 0 },
         VecCase { flags: vec![], roots: vec![s("c/r")], tokens: vec![s("@PARENS:90000@")], binary: true, raw_bytes_at: None, sinks: 0 },
+        VecCase { flags: vec![], roots: vec![s("c/r")], tokens: vec![s("@ORPARENS:2000@")], binary: true, raw_bytes_at: None, sinks: 0 },
+        VecCase { flags: vec![], roots: vec![s("c/r")], tokens: vec![s("@ORPARENS:20000@")], binary: true, raw_bytes_at: None, sinks: 0 },
         VecCase { flags: vec![], roots: vec![s("c/r")], tokens: std::iter::repeat(s("!")).take(90000).chain([s("-true")]).collect(), binary: true, raw_bytes_at: None, sinks: 0 },
         VecCase { flags: vec![], roots: vec![s("c/r")], tokens: std::iter::repeat([s("-true"), s("-o")]).take(40000).flatten().chain([s("-true")]).collect(), binary: true, raw_bytes_at: None, sinks: 0 },
         VecCase { flags: vec![], roots: vec![s("c/r")], tokens: vec![s("-name"), s("x")], binary: true, raw_bytes_at: Some(1), sinks: 0 },
